@@ -43,7 +43,7 @@ NeedOf(en) ==
     [] OTHER -> 0
 RECURSIVE SumNeed(_, _)
 SumNeed(stk, i) == IF i = 0 THEN 0 ELSE NeedOf(stk[i]) + SumNeed(stk, i - 1)
-Need(s) == SumNeed(s.stack, Len(s.stack)) + (IF s.stack[1].rule = "TopLevel" THEN 1 ELSE 0)
+Need(s) == SumNeed(s.stack, Len(s.stack)) + (IF Len(s.stack) = 1 /\ s.stack[1].rule = "TopLevel" THEN 1 ELSE 0)
 
 Leaf == si.st = "rejected" \/ Len(hist) >= MaxLen \/ (OnlyComplete /\ Accepted(si))
 
